@@ -65,10 +65,14 @@ def run(ctx):
     # the same comparisons over other scalar classes: the abstract values 0..3 stand for floats (0.0 for the default), integers beyond 2**31 that differ by one,
     # nearly equal floats, negative numbers (harness/proj.py VALUE_MAPS): equality is decided by the values, not by their type or magnitude
     for c in list(cases):
+        if c["d"] != 0 and c["emb_a"] == "tensor" and c["emb_b"] == "tensor" and ctx.rng.random() < 0.5:
+            # the default declared by the tensor's leaf rank differs from the one the fibers were built with
+            cases.append(dict(c, latedflt=1))
+    for c in list(cases):
         if c["d"] == 0 and ctx.rng.random() < (0.35 if ctx.quick else 0.6):
             cases.append(dict(c, vmap=ctx.rng.choice(["floatzero", "big", "nearfloats", "negative"])))
     part = family.run_family(ctx, "C12", cases, "harness.exec_eq", "EqTrace.tla", "EqTrace.cfg",
-                             op_of=lambda c, lg, st: "eq", where_of=lambda c, lg, st: f"depth{c['depth']}:{c['emb_a']}-{c['emb_b']}:d{c['d']}" + (":" + c["vmap"] if c.get("vmap") else ""),
+                             op_of=lambda c, lg, st: "eq", where_of=lambda c, lg, st: f"depth{c['depth']}:{c['emb_a']}-{c['emb_b']}:d{c['d']}" + (":" + c["vmap"] if c.get("vmap") else "") + (":latedflt" if c.get("latedflt") else ""),
                              nontrivial=lambda c, lg: bool(c["a"]["e"]) or bool(c["b"]["e"]))
     res = {"design": design, "states": states, "transitions": states, "exhaustive": False,
            "rule": "a case is a pair (triple) of trees with an embedding; ==, !=, reflexive/copy equality, isEmpty, countValues, nonEmpty are executed on the "
